@@ -28,7 +28,7 @@ TRUSTED_BASE = [
     "T4 external crates: regex, nom/pori, walkdir (depth limits, skip_current_dir pops one level per call), itertools",
     "T5 std as modelled by Kani (saturating_*, checked_*, NonZero*, Vec, Box, char predicates); vstd + listed assume_specifications in Verus",
     "T6 rule-checker guarantees used as preconditions of algebra contracts (no adjacent boundaries, ordered non-degenerate repetition bounds, invariant size < 0x10000)",
-    "T7 items hoisted verbatim from a function body (rule::branch tables, Token::has_root's Fold impl, partition's pop_expression_bytes) are compiled in a child module of the same file: names resolve through `use super::*` plus the function's own hoisted `use` items; the enclosing function's remaining body (the driver that calls them) is not under contract",
+    "T7 items hoisted verbatim from a function body (rule::branch tables, Token::has_root's Fold impl, partition's pop_expression_bytes and the `expression:` arm of its result, hoisted as an expression whose free variables become wrapper parameters) are compiled in a child module of the same file: names resolve through `use super::*` plus the function's own hoisted `use` items; the enclosing function's remaining body (the driver that calls them) is not under contract",
     "T8 verifier-only oracles replace what CBMC cannot decide: multiplication (C10.var.product.structure; axioms proved of the product of naturals by Verus), the regex engine (C13 Not obligations), the starting search of a non-leaf token (C06.branch.rooted.nested); each is listed in contracts/ASSUMPTIONS.md",
 ]
 
@@ -268,6 +268,17 @@ def hoisted_items(sel):
                 first = next((l.strip() for l in body.split("\n") if l.strip() and not l.strip().startswith("#[")), "")
                 items.append({"at": head.split(" (")[0], "starts": first[:80], "sha256": hashlib.sha256(body.encode()).hexdigest()[:12]})
             out.append({"unit": unit, "file": rel, "function": fn, "dropped": "the rest of the function body (statements, closures, deeper items), comments between items", "items": items})
+        for m in re.finditer(r"^//@hoist-expr (.*)$", src, re.M):
+            parts = [x.strip() for x in m.group(1).split("|")]
+            try:
+                text = vextract.hoist_expr(REPO, *parts)
+            except (Undecided, TypeError) as e:
+                out.append({"unit": unit, "file": parts[0], "function": parts[1] if len(parts) > 1 else "", "error": str(e)})
+                continue
+            head, _, body = text.split("// ---- hoisted verbatim from ")[1].partition("\n")
+            out.append({"unit": unit, "file": parts[0], "function": parts[1],
+                        "dropped": "the rest of the function body; the free variables of the expression are bound as parameters of a wrapper function in the harness module",
+                        "items": [{"at": head.split(" (")[0], "starts": body.strip().split("\n")[0][:80], "sha256": hashlib.sha256(body.encode()).hexdigest()[:12], "kind": "expression"}]})
     return out
 
 
